@@ -190,10 +190,11 @@ where
     match state.connection.receive().await {
         Ok(None) => return Err(()),
         Ok(Some(res)) => match res.into_single_frame() {
-            Ok(f) => {
+            Ok(mut f) => {
                 #[cfg(feature = "verif-hooks")]
                 crate::verif_hooks::emit(crate::verif_hooks::LoopEvent::NoidleReply);
-                if let Some(subsystem) = Subsystem::from_frame(f) {
+                // A single reply may report changes in several subsystems
+                while let Some(subsystem) = Subsystem::from_frame(&mut f) {
                     debug!(?subsystem, "state change");
                     let _ = state
                         .events
@@ -246,8 +247,9 @@ where
     match response {
         Ok(Some(res)) => {
             match res.into_single_frame() {
-                Ok(f) => {
-                    if let Some(subsystem) = Subsystem::from_frame(f) {
+                Ok(mut f) => {
+                    // A single reply may report changes in several subsystems
+                    while let Some(subsystem) = Subsystem::from_frame(&mut f) {
                         debug!(?subsystem, "state change");
                         let _ = state
                             .events
